@@ -47,11 +47,11 @@ theorem doSetSigners_bal (s s' : St) (fr tg : Nat) (l : List (Nat × Nat)) (tok 
   injection h with h; subst h
   exact modAcct_bal _ _ _ (by intro _; rfl) x
 
-theorem doRegister_bal_other (c : Ctx) (s s' : St) (fr : Nat) (amt : Int) (flag inc : Nat) (nd : Bool)
-    (h : doRegister c s fr amt flag inc nd = .ok s') (x : Nat) (hf : x ≠ fr) (hp : x ≠ c.p.pool) :
+theorem doRegister_bal_other (c : Ctx) (s s' : St) (fr : Nat) (amt : Int) (flag inc : Nat) (nd : Bool) (px : TxProfile)
+    (h : doRegister c s fr amt flag inc nd px = .ok s') (x : Nat) (hf : x ≠ fr) (hp : x ≠ c.p.pool) :
     (s'.accts x).bal = (s.accts x).bal := by
   unfold doRegister at h
-  simp only at h
+  simp only [depositAfterOverlay_true] at h
   split at h; · cases h
   split at h
   · split at h; · cases h
@@ -93,7 +93,7 @@ theorem body_bal_other (c : Ctx) (s s' : St) (tx : Tx) (ib : Int) (h : body c s 
     · injection h with h; subst h; rfl
     · injection h with h; subst h; exact transfer_bal_other _ _ _ _ _ hs ht
   | vote cand => simp only [hk] at h; exact doVote_bal c s s' _ _ _ h x
-  | register amt flag inc nd => simp only [hk] at h; exact doRegister_bal_other c s s' _ _ _ _ _ h x hs hp
+  | register amt flag inc nd px => simp only [hk] at h; exact doRegister_bal_other c s s' _ _ _ _ _ _ h x hs hp
   | setSigners tg l tok => simp only [hk] at h; exact doSetSigners_bal s s' _ _ _ _ h x
   | box => simp [hk] at h
   | other => simp [hk] at h
@@ -168,10 +168,10 @@ theorem body_income_other (c : Ctx) (s s' : St) (tx : Tx) (ib : Int) (h : body c
       split
       · rw [modAcct_income_keep _ _ _ (by intro _; rfl)]
       · rfl
-  | register amt flag inc nd =>
+  | register amt flag inc nd px =>
     simp only [hk] at h
     unfold doRegister at h
-    simp only at h
+    simp only [depositAfterOverlay_true] at h
     split at h; · cases h
     split at h
     · split at h; · cases h
